@@ -64,6 +64,28 @@ func c04Doc(c *fw.Ctx, doc string) *fw.Violation {
 	return nil
 }
 
+// c04Deep: an acyclic document nested depth containers deep (the text json() returns is indented and grows with the square of
+// the depth, so only its existence is printed; -o is parsed back in full).
+func c04Deep(c *fw.Ctx, depth int) *fw.Violation {
+	doc := strings.Repeat(`[{"a":`, depth/2) + "1" + strings.Repeat(`}]`, depth/2)
+	want, _ := ParseJSON(doc)
+	s := drive.Spec{Program: "BEGINFILE { s = json($); print s.length() > 2 }\n{ x = $ }", Files: []drive.File{{Name: "in.json", Data: doc}}, WantRoot: true}
+	o := run(c, s)
+	c.Traces++
+	c.Transitions += 2
+	s.Files = nil
+	if o.Kind != drive.KNone || o.Stdout != "true\n" {
+		return c04Fail(fmt.Sprintf("json($) of an acyclic document nested %d deep failed", depth), s, o, "true")
+	}
+	root, ok := ParseJSON(o.RootJSON)
+	if o.RootKind != drive.KNone || !ok || !EqualNodes(root, want) {
+		o.RootJSON = clip(o.RootJSON)
+		return c04Fail(fmt.Sprintf("-o of an acyclic document nested %d deep is not the document", depth), s, o, "")
+	}
+	c.State("deep acyclic document")
+	return nil
+}
+
 // c04Batch: json($) as ONE call site over a whole array of documents.
 func c04Batch(c *fw.Ctx, docs []string) *fw.Violation {
 	s := drive.Spec{Program: "{ print json($) }", Files: []drive.File{{Name: "in.json", Data: "[" + strings.Join(docs, ",") + "]"}}, WantRoot: true, Budget: 5_000_000}
@@ -413,7 +435,7 @@ func init() {
 	fw.Register(&fw.Prop{
 		ID: "C04",
 		Rule: "all JSON trees of depth <= 2 / width <= 2 over 12 scalars, all depth <= 4 / width 1 trees, a structured sweep of doubles, each through json($) and through -o unmodified; narrow documents through 21 sub-document selectors with -o, and changed by 13 mutating programs (push / pop / popfirst, through a callee, an alias, per element, in ENDFILE, stores that create and pad; most without any assignment) with -o compared to the model's root; " +
-			"7 programs that call json() on a container, change it through push / pop / popfirst / a callee without any assignment and call json() again; the real binary with -o - / -o FILE (over an older file, new) on 6 documents (two full of % directives, escapes and separators) whose element k receives one of 6 inexpressible values: non-zero exit, a diagnostic, nothing on stdout and no fragment in the file; " +
+			"acyclic documents nested 200 ... 4098 deep through json($) and -o; 7 programs that call json() on a container, change it through push / pop / popfirst / a callee without any assignment and call json() again; the real binary with -o - / -o FILE (over an older file, new) on 6 documents (two full of % directives, escapes and separators) whose element k receives one of 6 inexpressible values: non-zero exit, a diagnostic, nothing on stdout and no fragment in the file; " +
 			"all programs of <= L heap-building statements (cycles, sharing, regex / unset / non-finite members) followed by json() of every variable; oracle: the output parses with an independent RFC 8259 reader to a value equal to the document / the model's value, " +
 			"and a value is refused iff the model's heap has a cycle, regex or non-finite number in it; non-trivial = refusal classes; states = document shape classes, selector outcomes, graph outcome classes",
 		Plan: func(t fw.Tier) int { return docUnits + 1 + 1 + len(c04Ops) },
@@ -455,6 +477,11 @@ func init() {
 				}
 			case u == docUnits+1:
 				c.Do(func() any { return c04Spec{Form: "graph"} }, func() *fw.Violation { return c04Graph(c, nil) })
+				// deep but acyclic: every depth the reader accepts is written back (depth is not a cycle)
+				for _, depth := range []int{200, 1001, 1500, 2500, 4098} {
+					depth := depth
+					c.Do(func() any { return c04Spec{Form: "deep", Lo: depth} }, func() *fw.Violation { return c04Deep(c, depth) })
+				}
 				for i := range c04Again {
 					i := i
 					c.Do(func() any { return c04Spec{Form: "again", Sel: i} }, func() *fw.Violation { return c04AgainCheck(c, i) })
@@ -522,6 +549,8 @@ func init() {
 				return c04Mutated(c, s.Doc, s.Sel)
 			case "again":
 				return c04AgainCheck(c, s.Sel)
+			case "deep":
+				return c04Deep(c, s.Lo)
 			case "doc":
 				return c04Doc(c, s.Doc)
 			case "sel":
